@@ -63,6 +63,66 @@ func (c Config) Label() string {
 	return strings.Join(p, "+")
 }
 
+// Features names the performance features that are active in the
+// configuration: the peephole optimizer (levels 1 and 2), registers and
+// constant folding (switched on, or forced on by level 3), the global cache,
+// a non-default symbol allocation.
+func (c Config) Features() string {
+	var p []string
+
+	if c.Opt == 1 || c.Opt == 2 {
+		p = append(p, "peephole")
+	}
+
+	if c.Reg == 1 || c.Opt == 3 {
+		p = append(p, "registers")
+	}
+
+	if c.Fold == 1 || c.Opt == 3 {
+		p = append(p, "constfold")
+	}
+
+	if c.Cache == 1 {
+		p = append(p, "globalcache")
+	}
+
+	if c.Alloc != 0 {
+		p = append(p, "alloc")
+	}
+
+	if len(p) == 0 {
+		return "none"
+	}
+
+	return strings.Join(p, "+")
+}
+
+func (c Config) featureBits() int {
+	b := 0
+
+	if c.Opt == 1 || c.Opt == 2 {
+		b |= 1
+	}
+
+	if c.Reg == 1 || c.Opt == 3 {
+		b |= 2
+	}
+
+	if c.Fold == 1 || c.Opt == 3 {
+		b |= 4
+	}
+
+	if c.Cache == 1 {
+		b |= 8
+	}
+
+	if c.Alloc != 0 {
+		b |= 16
+	}
+
+	return b
+}
+
 // Deviations counts the settings that differ from the baseline.
 func (c Config) Deviations() int {
 	n := 0
@@ -160,13 +220,14 @@ type Raw struct {
 // Runner executes command lines in batch worker processes (this binary
 // re-executed with --batch) and in fresh processes of the plain ego binary.
 type Runner struct {
-	Self    string // this binary
-	Ego     string // plain ego binary ($VERIF_EGO)
-	Scratch string
-	Repo    string
-	mu      sync.Mutex
-	unit    int
-	homes   chan string
+	Self     string // this binary
+	Ego      string // plain ego binary ($VERIF_EGO)
+	Scratch  string
+	Repo     string
+	template string
+	mu       sync.Mutex
+	unit     int
+	homes    chan string
 	// Counters (measured).
 	BatchProcs, BatchItems, FreshRuns, Inconclusive int64
 }
@@ -195,13 +256,41 @@ func NewRunner() (*Runner, error) {
 		}
 	}
 
+	// The very first ego command in a new HOME creates the profile and runs
+	// with different defaults (language extensions are still off) than every
+	// later one. Every HOME used here is therefore a copy of one that has
+	// already been through that first run.
+	r.template = filepath.Join(r.Scratch, "template-home")
+	if err := os.MkdirAll(r.template, 0o755); err != nil {
+		return nil, err
+	}
+
+	warm := filepath.Join(r.Scratch, "src", "warm.ego")
+	if err := os.WriteFile(warm, []byte("package main\n\nimport \"fmt\"\n\nfunc main() {\nfmt.Println(\"warm\")\n}\n"), 0o644); err != nil {
+		return nil, err
+	}
+
+	for i := 0; i < 2; i++ {
+		cmd := exec.Command(r.Ego, "run", warm)
+		cmd.Dir = r.template
+		cmd.Env = r.env(r.template)
+
+		if out, err := cmd.CombinedOutput(); err != nil || !strings.Contains(string(out), "warm") {
+			return nil, fmt.Errorf("cannot initialise a profile with %s: %v: %s", r.Ego, err, out)
+		}
+	}
+
+	if _, err := os.Stat(filepath.Join(r.template, ".ego")); err != nil {
+		return nil, fmt.Errorf("ego did not create a profile directory: %v", err)
+	}
+
 	const nHomes = 64
 
 	r.homes = make(chan string, nHomes)
 
 	for i := 0; i < nHomes; i++ {
 		h := filepath.Join(r.Scratch, "fresh", fmt.Sprintf("h%d", i))
-		if err := os.MkdirAll(h, 0o755); err != nil {
+		if err := r.newHome(h); err != nil {
 			return nil, err
 		}
 
@@ -209,6 +298,35 @@ func NewRunner() (*Runner, error) {
 	}
 
 	return r, nil
+}
+
+// newHome creates dir as a HOME holding a copy of the initialised profile.
+func (r *Runner) newHome(dir string) error {
+	if err := os.MkdirAll(filepath.Join(dir, ".ego"), 0o700); err != nil {
+		return err
+	}
+
+	ents, err := os.ReadDir(filepath.Join(r.template, ".ego"))
+	if err != nil {
+		return err
+	}
+
+	for _, e := range ents {
+		if e.IsDir() {
+			continue
+		}
+
+		b, err := os.ReadFile(filepath.Join(r.template, ".ego", e.Name()))
+		if err != nil {
+			return err
+		}
+
+		if err := os.WriteFile(filepath.Join(dir, ".ego", e.Name()), b, 0o600); err != nil {
+			return err
+		}
+	}
+
+	return nil
 }
 
 func (r *Runner) env(home string) []string {
@@ -298,7 +416,9 @@ func (r *Runner) batchOnce(items []Item, continues bool) (map[int]*Raw, int) {
 	r.mu.Unlock()
 
 	home := filepath.Join(dir, "home")
-	_ = os.MkdirAll(home, 0o755)
+	if err := r.newHome(home); err != nil {
+		return nil, -1
+	}
 
 	defer os.RemoveAll(dir)
 
@@ -409,6 +529,9 @@ const freshTimeout = 3 * time.Minute
 func (r *Runner) Fresh(args []string, continues bool) *Raw {
 	home := <-r.homes
 	defer func() { r.homes <- home }()
+
+	// A run may save settings into the profile: start from the template.
+	_ = r.newHome(home)
 
 	r.mu.Lock()
 	r.FreshRuns++
